@@ -94,31 +94,34 @@ Section Wire.
   Definition ipv4_fragmented (pos : N) : bool :=
     negb ((B (pos + 6) / 32) mod 2 =? 0) || negb (W (pos + 6) mod 8192 =? 0).
 
+  (* the part behind the length checks: authentication header, then transport;
+     the packet ends at lim' = pos + total length *)
+  Definition wire_ipv4_tail (p : vpacket) (pos hl lim' : N) : vres :=
+    let frag := ipv4_fragmented pos in
+    let proto := B (pos + 9) in
+    if proto =? 51 then
+      match wire_ah CeAuthZeroPayloadLen LsIpv4HeaderTotalLen (pos + hl) lim' with
+      | AhErr r => r
+      | AhOk ahl next =>
+          let ppos := pos + hl + ahl in
+          wire_transport
+            (with_net p (VIpv4 (pos, hl) (Some (pos + hl, ahl))
+                           (mkVIp next frag LsIpv4HeaderTotalLen (ppos, lim' - ppos))))
+            next frag LsIpv4HeaderTotalLen ppos lim'
+      end
+    else
+      wire_transport
+        (with_net p (VIpv4 (pos, hl) None
+                       (mkVIp proto frag LsIpv4HeaderTotalLen (pos + hl, lim' - (pos + hl)))))
+        proto frag LsIpv4HeaderTotalLen (pos + hl) lim'.
+
   (* the part behind the version / IHL / header-length checks *)
   Definition wire_ipv4_body (p : vpacket) (src : len_source) (pos lim hl : N) : vres :=
     let a := lim - pos in
     let tl := W (pos + 2) in
     if tl <? hl then cut hl tl LsIpv4HeaderTotalLen LyIpv4Packet pos
     else if a <? tl then cut tl a src LyIpv4Packet pos
-    else
-      let lim' := pos + tl in
-      let frag := ipv4_fragmented pos in
-      let proto := B (pos + 9) in
-      if proto =? 51 then
-        match wire_ah CeAuthZeroPayloadLen LsIpv4HeaderTotalLen (pos + hl) lim' with
-        | AhErr r => r
-        | AhOk ahl next =>
-            let ppos := pos + hl + ahl in
-            wire_transport
-              (with_net p (VIpv4 (pos, hl) (Some (pos + hl, ahl))
-                             (mkVIp next frag LsIpv4HeaderTotalLen (ppos, lim' - ppos))))
-              next frag LsIpv4HeaderTotalLen ppos lim'
-        end
-      else
-        wire_transport
-          (with_net p (VIpv4 (pos, hl) None
-                         (mkVIp proto frag LsIpv4HeaderTotalLen (pos + hl, lim' - (pos + hl)))))
-          proto frag LsIpv4HeaderTotalLen (pos + hl) lim'.
+    else wire_ipv4_tail p pos hl (pos + tl).
 
   (* reached through the IPv4 ether type *)
   Definition wire_ipv4 (p : vpacket) (src : len_source) (pos lim : N) : vres :=
@@ -176,34 +179,28 @@ Section Wire.
 
   (* ---- IPv6 (RFC 8200): payload length 0 = up to the end of the enclosing
      data (the crate's documented stand-in for jumbograms) ------------------ *)
+  (* extension chain, then transport; esrc = source of the limit lim' (named by
+     errors), psrc = length source recorded in the payload descriptor *)
+  Definition wire_ipv6_tail (p : vpacket) (esrc psrc : len_source) (pos lim' : N) : vres :=
+    match wire_exts (S (N.to_nat (lim' - (pos + 40)))) esrc (pos + 40) lim' (B (pos + 6)) with
+    | ChErr r => r
+    | ChOk e next frag =>
+        wire_transport
+          (with_net p (VIpv6 (pos, 40)
+                         (if e =? pos + 40 then None else Some (B (pos + 6))) frag
+                         (pos + 40, e - (pos + 40))
+                         (mkVIp next frag psrc (e, lim' - e))))
+          next frag esrc e lim'
+    end.
+
   Definition wire_ipv6_body (p : vpacket) (src : len_source) (pos lim : N) : vres :=
     let a := lim - pos in
     let plen := W (pos + 4) in
     if (plen =? 0) && (40 <? a) then
-      (* the enclosing limit stays in force: errors name its source *)
-      match wire_exts (S (N.to_nat (lim - (pos + 40)))) src (pos + 40) lim (B (pos + 6)) with
-      | ChErr r => r
-      | ChOk e next frag =>
-          wire_transport
-            (with_net p (VIpv6 (pos, 40)
-                           (if e =? pos + 40 then None else Some (B (pos + 6))) frag
-                           (pos + 40, e - (pos + 40))
-                           (mkVIp next frag LsSlice (e, lim - e))))
-            next frag src e lim
-      end
+      (* the enclosing limit stays in force *)
+      wire_ipv6_tail p src LsSlice pos lim
     else if a <? 40 + plen then cut (40 + plen) a src LyIpv6Packet pos
-    else
-      let lim' := pos + 40 + plen in
-      match wire_exts (S (N.to_nat plen)) LsIpv6HeaderPayloadLen (pos + 40) lim' (B (pos + 6)) with
-      | ChErr r => r
-      | ChOk e next frag =>
-          wire_transport
-            (with_net p (VIpv6 (pos, 40)
-                           (if e =? pos + 40 then None else Some (B (pos + 6))) frag
-                           (pos + 40, e - (pos + 40))
-                           (mkVIp next frag LsIpv6HeaderPayloadLen (e, lim' - e))))
-            next frag LsIpv6HeaderPayloadLen e lim'
-      end.
+    else wire_ipv6_tail p LsIpv6HeaderPayloadLen LsIpv6HeaderPayloadLen pos (pos + 40 + plen).
 
   Definition wire_ipv6 (p : vpacket) (src : len_source) (pos lim : N) : vres :=
     let a := lim - pos in
